@@ -2,6 +2,7 @@ package main
 
 import (
 	"fmt"
+	"sort"
 	"go/constant"
 	"go/token"
 	"go/types"
@@ -25,6 +26,7 @@ type Env struct {
 	bound       map[string]Val
 	resolve     func(name string, h *Heap) (Val, bool)
 	inPost      bool
+	callSite    ssa.Value
 }
 
 func (fc *FnCtx) entryEnv() *Env {
@@ -248,6 +250,30 @@ func (fc *FnCtx) evalExpr(e *Expr, env *Env) Val {
 			inner.bound[q.Name] = Val{T: nm, Sort: sort, Math: sort == sInt}
 			decls = append(decls, fmt.Sprintf("(%s %s)", nm, sort))
 		}
+		// absolute-index discipline: if a bound integer is used directly as the index of a slice that does not
+		// depend on bound variables, quantify over the absolute element index instead (robust triggers).
+		if len(e.Trig) == 0 {
+			for _, q := range e.Vars {
+				if q.Sort != "int" {
+					continue
+				}
+				if base := findDirectIndex(e.Args[0], q.Name, e.Vars); base != nil {
+					var sv Val
+					func() {
+						defer func() {
+							if r := recover(); r != nil {
+								sv = Val{}
+							}
+						}()
+						sv = fc.evalExpr(base, &inner)
+					}()
+					if sv.Sort == sSlice {
+						nm := inner.bound[q.Name].T
+						inner.bound[q.Name] = Val{T: sx("-", nm, sx("s-off", sv.T)), Sort: sInt, Math: true}
+					}
+				}
+			}
+		}
 		body := fc.evalBool(e.Args[0], &inner)
 		if len(e.Trig) > 0 {
 			var pats []string
@@ -259,6 +285,18 @@ func (fc *FnCtx) evalExpr(e *Expr, env *Env) Val {
 				pats = append(pats, ":pattern ("+strings.Join(ts, " ")+")")
 			}
 			body = "(! " + body + " " + strings.Join(pats, " ") + ")"
+		} else {
+			var names []string
+			for _, q := range e.Vars {
+				names = append(names, qsym("q."+q.Name))
+			}
+			if alts := autoTriggers(body, names); len(alts) > 0 {
+				var pats []string
+				for _, a := range alts {
+					pats = append(pats, ":pattern ("+strings.Join(a, " ")+")")
+				}
+				body = "(! " + body + " " + strings.Join(pats, " ") + ")"
+			}
 		}
 		return boolVal(fmt.Sprintf("(%s (%s) %s)", e.Op, strings.Join(decls, " "), body))
 	case "sel":
@@ -658,27 +696,67 @@ func (fc *FnCtx) evalCall(e *Expr, env *Env) Val {
 		k := qsym(fmt.Sprintf("q.k%d", fc.nfresh))
 		return boolVal(and(eq(sx("slen", a[0].T), sx("slen", a[1].T)),
 			fmt.Sprintf("(forall ((%s Int)) (! (=> (and (<= 0 %s) (< %s (slen %s))) (= (sbyte %s %s) (sbyte %s %s))) :pattern ((sbyte %s %s))))", k, k, k, a[0].T, a[0].T, k, a[1].T, k, a[0].T, k)))
-	case "byteseq":
-		// byteseq(a, ao, b, bo, n): a[ao+k] == b[bo+k] for k < n (current heap)
+	case "byteseq", "byteseqold":
+		// byteseq(a, ao, b, bo, n): a[ao+k] == b[bo+k] for 0 <= k < n (byteseqold: b read in the old state);
+		// quantified over the absolute index j of a's underlying object.
 		a := args()
 		fc.nfresh++
-		k := qsym(fmt.Sprintf("q.k%d", fc.nfresh))
-		lhs := byteAt(env.heap, a[0], add(a[1].T, k))
-		return boolVal(fmt.Sprintf("(forall ((%s Int)) (! (=> (and (<= 0 %s) (< %s %s)) (= %s %s)) :pattern (%s)))", k, k, k, a[4].T, lhs, byteAt(env.heap, a[2], add(a[3].T, k)), lhs))
-	case "byteseqold":
-		// byteseqold(a, ao, b, bo, n): a[ao+k] (now) == old(b[bo+k])
-		a := args()
-		fc.nfresh++
-		k := qsym(fmt.Sprintf("q.k%d", fc.nfresh))
-		lhs := byteAt(env.heap, a[0], add(a[1].T, k))
-		return boolVal(fmt.Sprintf("(forall ((%s Int)) (! (=> (and (<= 0 %s) (< %s %s)) (= %s %s)) :pattern (%s)))", k, k, k, a[4].T, lhs, byteAt(env.old, a[2], add(a[3].T, k)), lhs))
+		j := qsym(fmt.Sprintf("q.j%d", fc.nfresh))
+		hb := env.heap
+		if e.Name == "byteseqold" {
+			hb = env.old
+		}
+		memA := env.heap.get("E.u8", arr2Sort(sInt))
+		memB := hb.get("E.u8", arr2Sort(sInt))
+		lo := add(sx("s-off", a[0].T), a[1].T)
+		lhs := sel2(memA, sx("s-obj", a[0].T), j)
+		rhs := sel2(memB, sx("s-obj", a[2].T), sx("+", add(sx("s-off", a[2].T), a[3].T), sx("-", j, lo)))
+		return boolVal(fmt.Sprintf("(forall ((%s Int)) (! (=> (and (<= %s %s) (< %s (+ %s %s))) (= %s %s)) :pattern (%s)))", j, lo, j, j, lo, a[4].T, lhs, rhs, lhs))
 	case "bytes_unchanged":
-		// bytes_unchanged(b, lo, hi): b[k] == old(b[k]) for lo <= k < hi
+		// bytes_unchanged(b, lo, hi): b[k] == old(b[k]) for lo <= k < hi (absolute index form)
 		a := args()
 		fc.nfresh++
-		k := qsym(fmt.Sprintf("q.k%d", fc.nfresh))
-		lhs := byteAt(env.heap, a[0], k)
-		return boolVal(fmt.Sprintf("(forall ((%s Int)) (! (=> (and (<= %s %s) (< %s %s)) (= %s %s)) :pattern (%s)))", k, a[1].T, k, k, a[2].T, lhs, byteAt(env.old, a[0], k), lhs))
+		j := qsym(fmt.Sprintf("q.j%d", fc.nfresh))
+		mem := env.heap.get("E.u8", arr2Sort(sInt))
+		mem0 := env.old.get("E.u8", arr2Sort(sInt))
+		off := sx("s-off", a[0].T)
+		lhs := sel2(mem, sx("s-obj", a[0].T), j)
+		return boolVal(fmt.Sprintf("(forall ((%s Int)) (! (=> (and (<= %s %s) (< %s %s)) (= %s %s)) :pattern (%s)))", j, add(off, a[1].T), j, j, add(off, a[2].T), lhs, sel2(mem0, sx("s-obj", a[0].T), j), lhs))
+	case "others_unchanged":
+		// others_unchanged(s): every object of s's element region other than s's own object is as in the old state
+		a := args()[0]
+		st, ok := a.Typ.Underlying().(*types.Slice)
+		if !ok {
+			panic(bindError{"others_unchanged: slice expected"})
+		}
+		if sortOf(st.Elem()) == "" {
+			// struct elements: every cell that is not a (direct) field of an element of s's object is unchanged
+			elem := st.Elem()
+			key := fc.eng.typeKey(elem)
+			fc.elemRef(elem, sx("s-obj", a.T), "0")
+			eo := qsym("elem." + key + ".obj")
+			k := fc.eng.typeIDOf(types.NewSlice(elem))*1000 + 999
+			var fs []string
+			for _, cell := range fc.flattenCells(elem, "") {
+				if cell.path != "" {
+					panic(bindError{"others_unchanged: nested struct elements not supported"})
+				}
+				mem := env.heap.get(cell.region, arrSort(cell.sort))
+				mem0 := env.old.get(cell.region, arrSort(cell.sort))
+				fc.nfresh++
+				r := qsym(fmt.Sprintf("q.r%d", fc.nfresh))
+				isElem := and(eq(sx("kind", r), num(int64(k))), eq(sx(eo, r), sx("s-obj", a.T)))
+				fs = append(fs, fmt.Sprintf("(forall ((%s Int)) (! (=> (not %s) (= (select %s %s) (select %s %s))) :pattern ((select %s %s))))", r, isElem, mem, r, mem0, r, mem, r))
+			}
+			return boolVal(and(fs...))
+		}
+		region := "E." + fc.eng.elemKey(st.Elem())
+		es := sortOf(st.Elem())
+		mem := env.heap.get(region, arr2Sort(es))
+		mem0 := env.old.get(region, arr2Sort(es))
+		fc.nfresh++
+		o := qsym(fmt.Sprintf("q.o%d", fc.nfresh))
+		return boolVal(fmt.Sprintf("(forall ((%s Int)) (! (=> (not (= %s (s-obj %s))) (= (select %s %s) (select %s %s))) :pattern ((select %s %s))))", o, o, a.T, mem, o, mem0, o, mem, o))
 	case "mem_unchanged_except":
 		// all byte objects are as in the old state, except bytes [lo,hi) of slice b
 		a := args()
@@ -770,13 +848,26 @@ func (fc *FnCtx) evalCall(e *Expr, env *Env) Val {
 		}
 		return boolVal(and(not(eq(sx("i-tag", a.T), "0")), sx("implements", sx("i-tag", a.T), num(int64(fc.eng.typeIDOf(t))))))
 	case "fresh":
-		// fresh(p): p was allocated by the function under contract (postcondition helper)
+		// fresh(p): p was allocated during the call. In the callee's own proof: by one of its allocation sites.
+		// At a call site (caller's view): a new allocation identified with the call instruction.
 		a := args()[0]
 		ref := a.T
 		if a.Sort == sSlice {
 			ref = sx("s-obj", a.T)
 		}
-		return boolVal(and(not(eq(ref, "0")), sx(">", sx("allocid", ref), "0")))
+		if env.callSite != nil {
+			id, ok := fc.allocIDs[env.callSite]
+			if !ok {
+				return boolVal(not(eq(ref, "0")))
+			}
+			return boolVal(and(not(eq(ref, "0")), eq(sx("allocid", ref), num(int64(id))), eq(sx("kind", ref), "0")))
+		}
+		var fs []string
+		for _, id := range fc.allocIDs {
+			fs = append(fs, eq(sx("allocid", ref), num(int64(id))))
+		}
+		sort.Strings(fs)
+		return boolVal(and(not(eq(ref, "0")), or(fs...)))
 	}
 	if m, ok := fc.eng.cs.Macros[e.Name]; ok {
 		if len(m.Params) != len(e.Args) {
@@ -1000,7 +1091,7 @@ func (fc *FnCtx) runAts(kind, pattern string, instr ssa.Instruction, args []Val,
 		if !anchorMatches(at.Anchor, kind, pattern) {
 			continue
 		}
-		if (at.Kind == "after") != after {
+		if (at.Kind == "after" || at.Kind == "ensures") != after {
 			continue
 		}
 		key := fmt.Sprintf("at%d", i)
@@ -1045,7 +1136,7 @@ func (fc *FnCtx) runAts(kind, pattern string, instr ssa.Instruction, args []Val,
 			}
 			fc.oblige("at", fmt.Sprintf("%s(%s).%s", at.Anchor.Kind, at.Anchor.Pattern, lbl), fc.evalBool(at.Cl.E, env), at.Cl.Props,
 				fmt.Sprintf("at %s(%s): %s", at.Anchor.Kind, at.Anchor.Pattern, at.Cl.Text), pos)
-		case "assume":
+		case "assume", "ensures":
 			fc.assumeHere(fc.evalBool(at.Cl.E, env))
 			fc.trusted[fmt.Sprintf("assume at %s(%s) in %s: %s", at.Anchor.Kind, at.Anchor.Pattern, fc.name, at.Cl.Text)] = true
 		case "ghost", "after":
@@ -1068,4 +1159,48 @@ func (fc *FnCtx) unmatchedAts() []string {
 		}
 	}
 	return out
+}
+
+// findDirectIndex finds the first sub-expression X[k] where k is the bound variable `name` and X mentions no bound variable.
+func findDirectIndex(e *Expr, name string, vars []QVar) *Expr {
+	if e == nil {
+		return nil
+	}
+	mentions := func(x *Expr) bool { return false }
+	var m func(x *Expr) bool
+	m = func(x *Expr) bool {
+		if x == nil {
+			return false
+		}
+		if x.Op == "ident" {
+			for _, v := range vars {
+				if v.Name == x.Name {
+					return true
+				}
+			}
+		}
+		for _, a := range x.Args {
+			if m(a) {
+				return true
+			}
+		}
+		return false
+	}
+	mentions = m
+	if e.Op == "forall" || e.Op == "exists" {
+		for _, v := range e.Vars {
+			if v.Name == name {
+				return nil // shadowed
+			}
+		}
+	}
+	if e.Op == "index" && e.Args[1].Op == "ident" && e.Args[1].Name == name && !mentions(e.Args[0]) {
+		return e.Args[0]
+	}
+	for _, a := range e.Args {
+		if r := findDirectIndex(a, name, vars); r != nil {
+			return r
+		}
+	}
+	return nil
 }
